@@ -41,7 +41,7 @@ def check_roundtrip(dicts, fmt, stale=None):
     msgs = [mido.Message(d['type'], **{k: v for k, v in d.items() if k != 'type'}) for d in dicts]
     with tempfile.TemporaryDirectory(prefix='c19_') as tmp:
         path = os.path.join(tmp, 'x.syx')
-        if stale is not None:
+        if stale is not None and stale != 'relative':
             # the path already holds an older, longer bank in the other format, and it has been read once
             try:
                 mido.write_syx_file(path, [mido.Message('sysex', data=[1, 2, 3] * 40), mido.Message('sysex', data=[9])],
@@ -49,6 +49,18 @@ def check_roundtrip(dicts, fmt, stale=None):
                 mido.read_syx_file(path)
             except Exception as exc:  # noqa: BLE001
                 return [fail('write-raises', f'stale bank: {exc!r}', exc=exc_sig(exc), fmt=fmt)]
+        if stale == 'relative':
+            # a relative file name, resolved against the current working directory
+            old_cwd = os.getcwd()
+            os.chdir(tmp)
+            try:
+                mido.write_syx_file('rel.syx', msgs, plaintext=(fmt == 'text'))
+                got = mido.read_syx_file('rel.syx')
+            except Exception as exc:  # noqa: BLE001
+                return [fail('read-raises', f'{fmt} (relative path): {exc!r}', exc=exc_sig(exc), fmt=fmt)]
+            finally:
+                os.chdir(old_cwd)
+            return _compare(got, _expect(dicts), f'round trip ({fmt}, relative path)')
         try:
             mido.write_syx_file(path, msgs, plaintext=(fmt == 'text'))
         except Exception as exc:  # noqa: BLE001
@@ -178,7 +190,7 @@ def hyp_shard(rec, shard):
     if block == 'rt':
         strat = st.fixed_dictionaries({'kind': st.just('roundtrip'), 'msgs': msg_list(),
                                        'fmt': st.sampled_from(['bin', 'text']),
-                                       'stale': st.sampled_from([None, None, 'bin', 'text'])})
+                                       'stale': st.sampled_from([None, None, 'bin', 'text', 'relative'])})
         rec.hyp(strat, n, seed_offset=k)
     elif block == 'text':
         rec.hyp(text_files(), n, seed_offset=100 + k)
@@ -196,6 +208,8 @@ def main(ctx):
         many = [{'type': 'sysex', 'data': [i % 128, (i // 128) % 128], 'time': 0} for i in range(1500)]
         ctx.check({'kind': 'roundtrip', 'msgs': many, 'fmt': fmt}, sample=False)
         ctx.check({'kind': 'roundtrip', 'msgs': [], 'fmt': fmt})
+        huge = {'type': 'sysex', 'data': [(i * 31) % 128 for i in range(100000)], 'time': 0}
+        ctx.check({'kind': 'roundtrip', 'msgs': [huge, {'type': 'sysex', 'data': [1], 'time': 0}], 'fmt': fmt}, sample=False)
         for ln in range(0, 8):
             one = {'type': 'sysex', 'data': list(range(ln)), 'time': 0}
             ctx.check({'kind': 'roundtrip', 'msgs': [one], 'fmt': fmt}, sample=False)
